@@ -292,6 +292,8 @@ pub fn run_prop(ctx: &Ctx, sink: &mut Sink) {
     ] {
         let mut ns: Vec<u64> = vals.clone();
         ns.extend([0, 1, 2, 3, vals[2] + 1, vals[2].saturating_sub(1), u64::MAX]);
+        // (the operand is a 64-bit number: a value beyond 32 bits is not its low 32 bits)
+        ns.extend([vals[0] + (1u64 << 32), vals[2] + (1u64 << 32), 1u64 << 32]);
         ns.sort();
         ns.dedup();
         for n in ns {
